@@ -218,7 +218,28 @@ var transformations = []string{"crlf", "lf", "indent-none", "indent-tab", "inden
 	"blank-line", "remove-blank-line", "comment-line", "block-comment-line", "final-nl-absent", "final-nl-present",
 	"block-comment", "line-comment", "remove-blank", "add-blank"}
 
-func findSites(src string, lex []reflex.Lexeme) []site {
+// Comment texts beyond the plain `/* c */` and `// c`: a comment's text is arbitrary up to its first
+// terminator (a slash right after the opener, quotes, nested openers, the other comment's markers).
+var blockBodies = []string{"/*/ x */", "/**/", "/***/", "/* // */", "/*\"*/", "/*`*/", "/* /* */", "/*'*/"}
+var lineBodies = []string{" //", " ///", " // \"", " // `", " // /*", " // */", " //'"}
+
+func bodyTransformations() []string {
+	var out []string
+	for i := range blockBodies {
+		out = append(out, fmt.Sprintf("block-comment~%d", i))
+	}
+	for i := range lineBodies {
+		out = append(out, fmt.Sprintf("line-comment~%d", i))
+	}
+	return out
+}
+
+func init() { transformations = append(transformations, bodyTransformations()...) }
+
+func findSites(src string, lex []reflex.Lexeme) []site { return findSitesEx(src, lex, false) }
+
+// findSitesEx: with bodies, the comment-inserting transformations are repeated with every other comment text.
+func findSitesEx(src string, lex []reflex.Lexeme, bodies bool) []site {
 	var out []site
 	n := len(lex)
 	ctx := contexts(lex)
@@ -227,8 +248,8 @@ func findSites(src string, lex []reflex.Lexeme) []site {
 		// the enclosing construct: the token pair (string, identifier) around a line break
 		// means one thing inside `import (` and another between two statements. Sites
 		// between two tokens of one line are identified by the token pair alone.
-		switch t {
-		case "block-comment", "remove-blank", "add-blank":
+		switch {
+		case t == "block-comment" || t == "remove-blank" || t == "add-blank" || strings.HasPrefix(t, "block-comment~"):
 		default:
 			kind = "in:" + ctx[pos] + "," + kind
 		}
@@ -266,6 +287,11 @@ func findSites(src string, lex []reflex.Lexeme) []site {
 			}
 			add("trailing-blanks", k, i, edit{l.Off, 0, " \t"}, false, false)
 			add("line-comment", k, i, edit{l.Off, 0, " // c"}, false, false)
+			if bodies {
+				for bi, b := range lineBodies {
+					add(fmt.Sprintf("line-comment~%d", bi), k, i, edit{l.Off, 0, b}, false, false)
+				}
+			}
 			after := l.Off + len(l.Text)
 			add("blank-line", k, i+1, edit{after, 0, eol}, true, false)
 			// the inverse of blank-line: drop an existing empty (or blanks-only) line
@@ -298,6 +324,11 @@ func findSites(src string, lex []reflex.Lexeme) []site {
 		}
 		if isTok(l) {
 			add("block-comment", kindOf(lex, i, false), i, edit{l.Off, 0, "/* c */"}, false, false)
+			if bodies {
+				for bi, b := range blockBodies {
+					add(fmt.Sprintf("block-comment~%d", bi), kindOf(lex, i, false), i, edit{l.Off, 0, b}, false, false)
+				}
+			}
 			if i > 0 && isTok(lex[i-1]) && l.Type != reflex.Newline && lex[i-1].Type != reflex.Newline &&
 				(opCommaBracket(l.Type) || opCommaBracket(lex[i-1].Type)) {
 				add("add-blank", "after:"+lex[i-1].Kind()+",before:"+l.Kind(), i, edit{l.Off, 0, " "}, false, false)
@@ -767,7 +798,13 @@ func Run() int {
 			p.skip = "base accepted on one target only"
 			return
 		}
-		p.sites = findSites(p.src, p.lex)
+		// small generated programs additionally get every comment text at every comment site
+		// (quick: the forms at top level and the top-level forms; thorough: every generated program)
+		small := p.origin == "generated" && len(p.baseToks) <= 120 && !strings.Contains(p.src, "import")
+		if !thorough {
+			small = small && (strings.HasSuffix(p.name, "@top") || !strings.Contains(p.name, "@"))
+		}
+		p.sites = findSitesEx(p.src, p.lex, small)
 	})
 	for _, p := range infos {
 		byOrigin[p.origin]++
